@@ -46,3 +46,33 @@ def bash_glob(root, patterns, globstar=True, dotglob=False, skipdots=True):
     if len(out) != len(patterns):
         raise RuntimeError('bash output misaligned: %d vs %d' % (len(out), len(patterns)))
     return out
+
+
+MATCH_SCRIPT = r'''
+shopt -s extglob
+names=()
+while IFS= read -r -d '' n; do
+  [[ $n == $'\1' ]] && break
+  names+=("$n")
+done
+while IFS= read -r -d '' pat; do
+  out=""
+  for n in "${names[@]}"; do
+    if [[ $n == $pat ]]; then out+="1"; else out+="0"; fi
+  done
+  printf '%s\0' "$out"
+done
+'''
+
+
+def bash_match(patterns, names):
+    """[[ name == pattern ]] (extglob) for every pattern x name; returns list of strings of 0/1 per pattern."""
+    data = b''.join(n.encode() + b'\0' for n in names) + b'\1\0' + b''.join(p.encode() + b'\0' for p in patterns)
+    r = subprocess.run([BASH, '--norc', '--noprofile', '-c', MATCH_SCRIPT], input=data, capture_output=True,
+                       env={'LC_ALL': 'C', 'PATH': '/usr/bin:/bin'}, timeout=300)
+    if r.returncode != 0:
+        raise RuntimeError('bash failed: %r' % r.stderr[-300:])
+    out = [x.decode() for x in r.stdout.split(b'\0')[:-1]]
+    if len(out) != len(patterns):
+        raise RuntimeError('bash output misaligned: %d vs %d' % (len(out), len(patterns)))
+    return out
